@@ -80,8 +80,15 @@ class P(EngProp):
         docs = []
         lines = []
         if kind in ("json", "jsonsome", "jsonpath"):
-            for _ in range(nrec):
-                jl = JLine(rng, egen.gen_jdoc(rng), malform=rng.choice([None, None, None, None, None, None, "cut", "trailing", "array", "bad", "badval", "badval"]))
+            shadow = rng.random() < 0.35
+            for idx in range(nrec):
+                pairs = egen.gen_jdoc(rng)
+                if shadow and idx == 0:
+                    # a field named like an attribute all records of the resource share (job): it overrides the label for THIS line only
+                    pairs = [(k, v) for k, v in pairs if k != "job"] + [("job", rng.choice(["from-line", "x2", ""]))]
+                elif shadow:
+                    pairs = [(k, v) for k, v in pairs if k != "job"]
+                jl = JLine(rng, pairs, malform=None if (shadow and idx == 0) else rng.choice([None, None, None, None, None, None, "cut", "trailing", "array", "bad", "badval", "badval"]))
                 docs.append(jl); lines.append(jl.text); jsonl.append((B(jl.text), jl.coq))
             if kind == "jsonpath" and nrec >= 3 and rng.random() < 0.6:
                 # a line broken below the top level followed by well-formed ones: a stage is a function of the line it is given, not of the lines before
@@ -141,6 +148,13 @@ class P(EngProp):
                      ("z", "nested.deep.z", [("k", "nested"), ("k", "deep"), ("k", "z")]), ("u", "[\"user.name\"]", [("k", "user.name")]), ("w", "nested", [("k", "nested")]),
                      ("nn", "n", [("k", "n")]), ("miss", "nosuch.q", [("k", "nosuch"), ("k", "q")])]
             ex = rng.sample(cands, rng.randint(1, 3))
+            if rng.random() < 0.35:
+                # two labels asking for ONE path (also spelled differently) whose value is an object or an array: both are exposed
+                p1, p2 = rng.choice([(("w", "nested", [("k", "nested")]), ("w2", "nested", [("k", "nested")])),
+                                     (("w", "nested", [("k", "nested")]), ("wq", '["nested"]', [("k", "nested")])),
+                                     (("la", "list", [("k", "list")]), ("lb", "list", [("k", "list")])),
+                                     (("d1", "nested.deep", [("k", "nested"), ("k", "deep")]), ("d2", 'nested["deep"]', [("k", "nested"), ("k", "deep")]))])
+                ex = [e for e in ex if e[0] not in (p1[0], p2[0])][:1] + [p1, p2]
             lab = rng.choice([["status"], ["\u043a\u043b\u044e\u0447"], ["status", "\u00e91"]]) if rng.random() < 0.4 else []      # plain names next to path expressions, also non-ASCII identifiers
             pipe.append(g.st_json(labels=lab, exprs=ex))
             for r, jl in zip(recs, docs):
